@@ -275,3 +275,186 @@ Theorem C10_fast_mean_gradient :
     /\ gradmean_fast dk alpha = gradmean_def dk alpha.
 Proof. move=> R n d k h alpha dk; split; [exact: mean_fast_linear | exact: gradmean_fastE]. Qed.
 Print Assumptions C10_fast_mean_gradient.
+
+(** ---- non-vacuity of the hypotheses (audit) ---- *)
+(** One concrete instance: parameters (a, b), the bounds dict written in the other key order, one query row inside the
+    user's box with a finite prior, one outside; an evidence history of three updates. *)
+Local Open Scope Q_scope.
+Definition C10_nv_a : String.string := String.String (Ascii.ascii_of_nat 97) String.EmptyString.
+Definition C10_nv_b : String.string := String.String (Ascii.ascii_of_nat 98) String.EmptyString.
+Definition C10_nv_names : list String.string := [C10_nv_a; C10_nv_b].
+Definition C10_nv_d : bdict := [(C10_nv_b, (-(1), 1)); (C10_nv_a, (0, 2))].
+Definition C10_nv_d' : bdict := [(C10_nv_a, (0, 2)); (C10_nv_b, (-(1), 1))].
+Definition C10_nv_box : list bound := [(0, 2); (-(1), 1)].
+Definition C10_nv_orc : gp_oracle :=
+  {| o_mean := 0; o_var := 4; o_gmean := [1; -(1)]; o_gvar := [1#2; 1]; o_sd := 2; o_z := 1#2;
+     o_pdf := 1#3; o_cdf := 2#3; o_logpdf := -(1); o_logcdf := -(1#2); o_lr := -(1#2); o_ratio := 1#2 |}.
+Definition C10_nv_row_in : Gp.row :=
+  {| r_x := [3#2; 1#2]; r_orc := C10_nv_orc; r_lprior := Fin (-(1)); r_gprior := [1#4; 0] |}.
+Definition C10_nv_row_out : Gp.row :=
+  {| r_x := [3; 0]; r_orc := C10_nv_orc; r_lprior := Fin (-(1)); r_gprior := [1#4; 0] |}.
+Definition C10_nv_rows : list Gp.row := [C10_nv_row_in; C10_nv_row_out].
+
+Example C10_logpdf_inside_nonvacuous :
+  (forall xi lo hi, In (xi, (lo, hi)) (combine (r_x C10_nv_row_in) C10_nv_box) -> lo <= xi /\ xi <= hi)
+  /\ r_lprior C10_nv_row_in = Fin (-(1))
+  /\ logpdf_row C10_nv_box C10_nv_row_in = Fin (o_logcdf (r_orc C10_nv_row_in) + -(1)).
+Proof.
+  assert (H : forall xi lo hi, In (xi, (lo, hi)) (combine (r_x C10_nv_row_in) C10_nv_box) -> lo <= xi /\ xi <= hi)
+    by (apply C10_within_bounds_spec; vm_compute; reflexivity).
+  split; [exact H|]. split; [reflexivity|]. apply C10_logpdf_inside; [exact H|reflexivity].
+Qed.
+
+Example C10_update_keeps_rows_nonvacuous :
+  nth_error (rows_of (final None [[1; 2]; [3]]%nat)) 2 = Some 3%nat
+  /\ nth_error (rows_of (final None ([[1; 2]; [3]] ++ [[4; 5]])%nat)) 2 = Some 3%nat.
+Proof.
+  assert (H : nth_error (rows_of (final None [[1; 2]; [3]]%nat)) 2 = Some 3%nat) by reflexivity.
+  split; [exact H|]. exact (C10_update_keeps_rows nat None _ [[4; 5]]%nat _ _ H).
+Qed.
+
+Example C10_nv_nodup_perm :
+  List.NoDup (List.map fst C10_nv_d) /\ Permutation.Permutation C10_nv_d C10_nv_d'.
+Proof.
+  split.
+  - constructor; [|constructor; [|constructor]]; simpl.
+    + intros [H|[]]. discriminate H.
+    + intros [].
+  - apply Permutation.perm_swap.
+Qed.
+
+Example C10_box_order_independent_nonvacuous :
+  List.NoDup (List.map fst C10_nv_d) /\ Permutation.Permutation C10_nv_d C10_nv_d'
+  /\ box_of C10_nv_names C10_nv_d = Some C10_nv_box /\ box_of C10_nv_names C10_nv_d' = Some C10_nv_box.
+Proof.
+  destruct C10_nv_nodup_perm as [H1 H2]. split; [exact H1|]. split; [exact H2|].
+  rewrite <- (C10_box_order_independent C10_nv_names _ _ H1 H2). split; reflexivity.
+Qed.
+
+Example C10_box_by_name_nonvacuous :
+  box_of C10_nv_names C10_nv_d = Some C10_nv_box /\ length C10_nv_box = length C10_nv_names.
+Proof. split; [reflexivity|]. exact (proj1 (C10_box_by_name _ _ _ (Logic.eq_refl : box_of C10_nv_names C10_nv_d = Some C10_nv_box))). Qed.
+
+Example C10_within_bounds_by_name_nonvacuous :
+  box_of C10_nv_names C10_nv_d = Some C10_nv_box /\ length C10_nv_names <> 1%nat
+  /\ length (r_x C10_nv_row_in) = length C10_nv_names
+  /\ within_bounds (r_x C10_nv_row_in) C10_nv_box = true /\ within_bounds (r_x C10_nv_row_out) C10_nv_box = false
+  /\ (forall i n xi lo hi, nth_error C10_nv_names i = Some n -> nth_error (r_x C10_nv_row_in) i = Some xi ->
+                           lookup C10_nv_d n = Some (lo, hi) -> lo <= xi /\ xi <= hi).
+Proof.
+  assert (Hb : box_of C10_nv_names C10_nv_d = Some C10_nv_box) by reflexivity.
+  assert (Hn : length C10_nv_names <> 1%nat) by discriminate.
+  assert (Hx : length (r_x C10_nv_row_in) = length C10_nv_names) by reflexivity.
+  split; [exact Hb|]. split; [exact Hn|]. split; [exact Hx|]. split; [reflexivity|]. split; [reflexivity|].
+  apply (C10_within_bounds_by_name _ _ _ _ Hb Hn Hx). reflexivity.
+Qed.
+
+Example C10_posterior_order_independent_nonvacuous :
+  List.NoDup (List.map fst C10_nv_d) /\ Permutation.Permutation C10_nv_d C10_nv_d'
+  /\ box_of C10_nv_names C10_nv_d = Some C10_nv_box /\ box_of C10_nv_names C10_nv_d' = Some C10_nv_box
+  /\ logpdf_row C10_nv_box C10_nv_row_in = Fin (-(3#2)).
+Proof.
+  destruct C10_nv_nodup_perm as [H1 H2]. repeat (split; [first [exact H1|exact H2|reflexivity]|]). reflexivity.
+Qed.
+
+Example C10_nv_rows_wf :
+  List.Forall (fun r => o_var (r_orc r) == o_sd (r_orc r) * o_sd (r_orc r) /\ ~ o_sd (r_orc r) == 0) C10_nv_rows.
+Proof. repeat constructor; try reflexivity; intro H; discriminate H. Qed.
+
+(** the model's own output on the instance: hypotheses of [C10_model_ok_by_name] / [C10_model_ok], hence [ok c = true]
+    (the hypothesis of [C10_ok_sound]) on a case with an inside and an outside row *)
+Definition C10_nv_case : Gp.case :=
+  PostCase {| pc_dim := 2; pc_ndim := 2; pc_names := C10_nv_names; pc_dict := C10_nv_d; pc_impl_bounds := C10_nv_box;
+              pc_t := 1; pc_rows := C10_nv_rows; pc_impl_ll := Vec []; pc_impl_gl := Vec [];
+              pc_impl_logpdf := List.map (fun r => to_obs (logpdf_row C10_nv_box r)) C10_nv_rows;
+              pc_impl_grad := List.map (fun r => List.map Some (gradpdf_row C10_nv_box 1 r)) C10_nv_rows |}.
+
+Example C10_model_ok_by_name_nonvacuous :
+  box_of C10_nv_names C10_nv_d = Some C10_nv_box /\ length C10_nv_names <> 1%nat /\ length C10_nv_names = 2%nat
+  /\ List.Forall (fun r => length (r_x r) = 2%nat) C10_nv_rows
+  /\ List.Forall (fun r => o_var (r_orc r) == o_sd (r_orc r) * o_sd (r_orc r) /\ ~ o_sd (r_orc r) == 0) C10_nv_rows
+  /\ ok C10_nv_case = true.
+Proof.
+  assert (Hl : List.Forall (fun r => length (r_x r) = 2%nat) C10_nv_rows) by (repeat constructor).
+  split; [reflexivity|]. split; [discriminate|]. split; [reflexivity|]. split; [exact Hl|].
+  split; [exact C10_nv_rows_wf|].
+  apply (C10_model_ok_by_name C10_nv_names C10_nv_d C10_nv_box 1 2%nat C10_nv_rows);
+    [reflexivity|discriminate|reflexivity|exact Hl|exact C10_nv_rows_wf].
+Qed.
+
+Example C10_model_ok_nonvacuous :
+  rows_ok C10_nv_box 1 C10_nv_rows (List.map (fun r => to_obs (logpdf_row C10_nv_box r)) C10_nv_rows)
+          (List.map (fun r => List.map Some (gradpdf_row C10_nv_box 1 r)) C10_nv_rows) = true.
+Proof. exact (proj1 C10_model_ok _ _ _ C10_nv_rows_wf). Qed.
+
+Example C10_ok_sound_nonvacuous :
+  ok C10_nv_case = true
+  /\ ok (EvCase {| ec_batches := [[([1], 2)]; [([3], 4); ([5], 6)]];
+                   ec_snaps := [([([1], 2)], 1%nat); ([([1], 2); ([3], 4); ([5], 6)], 3%nat)] |}) = true
+  /\ named_row_prop C10_nv_names C10_nv_d 1 C10_nv_row_out ONegInf (List.map Some (gradpdf_row C10_nv_box 1 C10_nv_row_out)).
+Proof.
+  split; [vm_compute; reflexivity|]. split; [vm_compute; reflexivity|].
+  assert (H : ok C10_nv_case = true) by (vm_compute; reflexivity).
+  exact (proj2 (proj2 (C10_ok_sound _ H)) 1%nat _ _ _ Logic.eq_refl Logic.eq_refl Logic.eq_refl).
+Qed.
+
+(** matrix part: the hypotheses of [C10_fast_variance], [C10_fast_variance_gradient], [C10_variance_first_order] and
+    [C10_variance_gradient_column] hold together for EVERY invertible factor L (Linv := L^-1, W := Linv^T Linv,
+    v, dv the solutions of the triangular systems), for every k and dk; and invertible non-identity factors exist. *)
+Local Open Scope ring_scope.
+Example C10_fast_variance_gradient_nonvacuous :
+  forall (R : comUnitRingType) (n d : nat) (L : 'M[R]_n) (k : 'rV[R]_n) (dk : 'M[R]_(n, d)),
+    L \in unitmx ->
+    let Linv := invmx L in let W := Linv^T *m Linv in let v := Linv *m k^T in let dv := Linv *m dk in
+    [/\ Linv *m L = 1%:M, L *m v = k^T, L *m dv = dk, W = Linv^T *m Linv & W^T = W]
+    /\ gradvar_fast v dv = gradvar_def k W dk
+    /\ var_fast 0 0 k W = var_chol 0 0 k Linv.
+Proof.
+  move=> R n d L k dk HL /=.
+  have H1 : invmx L *m L = 1%:M by exact: mulVmx.
+  have H2 : L *m (invmx L *m k^T) = k^T by rewrite mulmxA mulmxV // mul1mx.
+  have H3 : L *m (invmx L *m dk) = dk by rewrite mulmxA mulmxV // mul1mx.
+  have H5 : ((invmx L)^T *m invmx L)^T = (invmx L)^T *m invmx L by rewrite trmx_mul trmxK.
+  split; [by split|]. split.
+  - exact: (C10_fast_variance_gradient _ _ _ L (invmx L) _ k dk _ _ H1 H2 H3 Logic.eq_refl).
+  - exact: (proj2 (C10_fast_variance _ _ 0 0 k _ (invmx L) Logic.eq_refl)).
+Qed.
+
+Example C10_nv_unit_factor :
+  let L : 'M[rat]_2 := (2%:R)%:M in L \in unitmx /\ L != 1%:M.
+Proof.
+  split.
+  - by rewrite unitmxE det_scalar unitrX // unitfE.
+  - apply/eqP => /matrixP /(_ ord0 ord0). by rewrite !mxE.
+Qed.
+
+(** a richer witness for [C10_gradient_is_derivative] / [_noise] / [C10_gradient_chain_rule_form] than the one of
+    [C10_gradient_hypotheses_satisfiable] (constant variance): mean 3x, predictive variance 1 + x^2 (derivative 2x, not
+    identically 0), noise variance 2, Phi = phi = exp; the theorem instantiated on it *)
+From Coq Require Import Lra.
+Example C10_gradient_is_derivative_nonvacuous :
+  let mu := fun x : R => Rmult (IZR 3) x in let dmu := fun _ : R => IZR 3 in
+  let v := fun x : R => Rplus (IZR 1) (Rmult x x) in let dv := fun x : R => Rplus x x in
+  let sigma2 := IZR 2 in
+  (forall z, is_derive Rtrigo_def.exp z (Rtrigo_def.exp z)) /\ (forall z, Rlt (IZR 0) (Rtrigo_def.exp z))
+  /\ (forall x, is_derive mu x (dmu x)) /\ (forall x, is_derive v x (dv x))
+  /\ (forall x, Rlt (IZR 0) (v x)) /\ (forall x, Rlt (IZR 0) (Rplus (v x) sigma2))
+  /\ (exists x, dv x <> IZR 0)
+  /\ forall t x, is_derive (fun x => loglik Rtrigo_def.exp t (mu x) (Rplus (v x) sigma2)) x
+                           (grad Rtrigo_def.exp Rtrigo_def.exp t (mu x) (Rplus (v x) sigma2) (dmu x) (dv x)).
+Proof.
+  cbv zeta.
+  assert (H1 : forall z, is_derive Rtrigo_def.exp z (Rtrigo_def.exp z)) by (intro z; apply is_derive_exp).
+  assert (H2 : forall z, Rlt (IZR 0) (Rtrigo_def.exp z)) by (intro z; apply exp_pos).
+  assert (H3 : forall x : R, is_derive (fun x : R => Rmult (IZR 3) x) x (IZR 3)) by (intro x; auto_derive; [trivial | ring]).
+  assert (H4 : forall x : R, is_derive (fun x : R => Rplus (IZR 1) (Rmult x x)) x (Rplus x x))
+    by (intro x; auto_derive; [trivial | ring]).
+  assert (H5 : forall x : R, Rlt (IZR 0) (Rplus (IZR 1) (Rmult x x))) by (intro x; pose proof (Rle_0_sqr x) as Hs; unfold Rsqr in Hs; lra).
+  assert (H6 : forall x : R, Rlt (IZR 0) (Rplus (Rplus (IZR 1) (Rmult x x)) (IZR 2))) by (intro x; pose proof (Rle_0_sqr x) as Hs; unfold Rsqr in Hs; lra).
+  split; [exact H1|]. split; [exact H2|]. split; [exact H3|]. split; [exact H4|]. split; [exact H5|].
+  split; [exact H6|]. split; [exists (IZR 1); lra|].
+  intros t x.
+  exact (C10_gradient_is_derivative_noise Rtrigo_def.exp Rtrigo_def.exp (fun x : R => Rmult (IZR 3) x)
+           (fun x : R => Rplus (IZR 1) (Rmult x x)) (fun _ => IZR 3) (fun x => Rplus x x) t (IZR 2)
+           H1 H2 H2 x (H3 x) (H4 x) (H6 x)).
+Qed.
